@@ -8,6 +8,7 @@ from .mpgen import *
 
 READER_THEOREMS = [
     "BSVerif.Props.C05.reader_skip_exact",
+    "BSVerif.Props.C05.reader_skip_ext_exact",
     "BSVerif.Props.C05.reader_skip_only_wellformed",
     "BSVerif.Props.C05.reader_skip_rejects",
     "BSVerif.Props.C05.reader_skip_total",
@@ -26,6 +27,11 @@ SCOPE_THEOREMS = [
     "BSVerif.Props.C05.Scope.array_element_consumes_one",
     "BSVerif.Scope.skip_at",
     "BSVerif.Props.C05.Scope.array_close_skips_unread",
+    "BSVerif.Props.C05.Scope.binary_scope_session",
+    "BSVerif.Props.C05.Scope.open_binary_leaves_other_value",
+    "BSVerif.Props.C05.Scope.array_binary_element_consumes_one",
+    "BSVerif.Props.C05.Scope.root_binary_value_consumes_one",
+    "BSVerif.Props.C05.Scope.binary_read_past_end",
     "BSVerif.Props.C03.get_correct",        # object scopes: a skipped member re-establishes the cursor invariant
 ]
 THEOREMS = list(READER_THEOREMS) + SCOPE_THEOREMS
@@ -33,8 +39,9 @@ RULE = ("random nested well-formed objects (depth <= 4, every format width chose
         "sentinel bytes: SkipValue, and one ReadValue/Read*Size of EVERY target kind with both policies Skip — the reader must return "
         "false at exactly the end of the object (mismatch) or of the number (overflow) with the target untouched; also nil under "
         "ThrowError; same ops on the stream reader incl. objects straddling the 256-byte chunk boundary; truncated objects must raise "
-        "a parsing error; scope level: request histories with values of another kind requested under Skip, array scopes left partly read "
-        "and followed by further requests, std::tuple at every subset of mismatched positions, shorter/longer arrays, also inside a class "
+        "a parsing error; scope level: request histories with values of another kind requested under Skip (incl. ext values, timestamps, `bin` values requested as "
+        "strings), array scopes left partly read, binary scopes (OpenBinaryScope in arrays, objects and at the root) read fully / partly / not at all and OpenBinaryScope on elements "
+        "that are not bin (left in place, not counted), all followed by further requests, std::tuple at every subset of mismatched positions, shorter/longer arrays, also inside a class "
         "followed by another field (mp.tuple … obj); non-trivial = the reader returned false / skipped more than one byte; distinct = distinct op lines")
 EXHAUSTIVE = {"quick": False, "thorough": False}
 ASSUMPTIONS = ["nesting depth small enough for the C++ stack (SkipValueImpl recursion is unbounded: NOTES, C02)",
